@@ -178,3 +178,21 @@ Theorem rejecting_inside_refuted :
   bounds_exact [(BX, CLt, BZero); (BX, CGe, BWidth); (BY, CLt, BZero); (BY, CGe, BHeight); (BX, CGe, BHeight)] = false
   /\ rejects [(BX, CLt, BZero); (BX, CGe, BWidth); (BY, CLt, BZero); (BY, CGe, BHeight); (BX, CGe, BHeight)] 7 1 8 2 = true.
 Proof. vm_compute. split; reflexivity. Qed.
+
+(** * frame table keys *)
+Lemma krole_eqb_eq : forall a b, krole_eqb a b = true -> a = b.
+Proof. intros [] []; cbn; congruence. Qed.
+Lemma kroles_eqb_eq : forall l1 l2, kroles_eqb l1 l2 = true -> l1 = l2.
+Proof.
+  induction l1 as [|a r IH]; intros [|b r2] H; cbn in H; try discriminate; [reflexivity|].
+  apply andb_true_iff in H. destruct H as [H1 H2]. apply krole_eqb_eq in H1. apply IH in H2. now subst.
+Qed.
+(** two sites that pass [key_ok] build the same key for the same (frame, side, mipmap): what one stores the other finds *)
+Theorem key_sites_agree : forall p q, key_ok p = true -> key_ok q = true ->
+  forall f s m o o', key_of p f s m o = [f; s; m] /\ key_of q f s m o' = key_of p f s m o.
+Proof.
+  intros p q Hp Hq f s m o o'. apply kroles_eqb_eq in Hp, Hq. subst. split; reflexivity.
+Qed.
+(** frame and mipmap exchanged: level 1 of frame 0 is looked up as level 0 of frame 1 *)
+Theorem swapped_key_refuted : key_ok [KMip; KSide; KFrame] = false /\ key_of [KMip; KSide; KFrame] 0 0 1 0 = [1; 0; 0].
+Proof. vm_compute. split; reflexivity. Qed.
